@@ -70,7 +70,9 @@ inductive KAct (b : BState) (i : Nat) : BState → Prop where
       KAct b i (setClient b i (.upUpdate k v w ttl rm))
   | startGetRef (k) : b.cl[i]? = some (.start (.getRef k)) → b.g.shutting = false → KAct b i (setClient b i (.refStore k))
   | startMget (ks iter) : b.cl[i]? = some (.start (.mget ks iter)) → b.g.shutting = false →
-      KAct b i (mgetNext b i ks [] iter)
+      KAct b i (mgetStart b i ks iter)
+  | mgetFlag (outer ks acc iter) : b.cl[i]? = some (.mgetFlag outer ks acc iter) →
+      KAct b i (mgetFlagAct b i outer ks acc iter)
   | putPresentHit (k v w ttl) : b.cl[i]? = some (.putPresent k v w ttl) → b.g.store.contains k = true →
       KAct b i (spotFinish b i (.rejected .keyAlreadyExists))
   | putPresentOk (k v w ttl) : b.cl[i]? = some (.putPresent k v w ttl) → b.g.store.contains k = false →
@@ -349,6 +351,9 @@ theorem clientAct_cact {b b' : BState} {i : Nat} {o o' : Oracle} (h : clientAct 
         simp only [Except.ok.injEq, Prod.mk.injEq] at h; obtain ⟨rfl, rfl⟩ := h
         exact .mgetPool _ _ _ _ _ _ hpc (poolAdd_frame hp)
       · cases h
+    | mgetFlag outer ks acc iter =>
+      simp only [Except.ok.injEq, Prod.mk.injEq] at h; obtain ⟨rfl, rfl⟩ := h
+      exact .mgetFlag _ _ _ _ hpc
     | shutCas => exact .shut _ _ hpc rfl
     | shutSendCmd => exact .shut _ _ hpc rfl
     | shutSendBuf => exact .shut _ _ hpc rfl
@@ -530,8 +535,8 @@ theorem kframe_mgetNext {b b0 : BState} {i : Nat} {ks : List Nat} {acc : List (O
     (hsw : b0.sw = b.sw) (hcfg : b0.g.cfg = b.g.cfg) (hnow : b0.g.now = b.g.now) (hadm : b0.g.adm = b.g.adm)
     (hsh : b0.g.shutting = b.g.shutting) (hwk : b0.g.worker = b.g.worker) :
     ∃ pc', KFrame b (mgetNext b0 i ks acc iter) i pc' ∧
-      (pc' = .idle ∨ ∃ k rest, pc' = .mgetStore k rest acc iter) := by
-  rcases mgetNext_spec b0 i ks acc iter with ⟨out, e⟩ | ⟨k, rest, _, _, e⟩ <;> rw [e]
+      (pc' = .idle ∨ ∃ k rest, pc' = .mgetFlag iter (k :: rest) acc iter) := by
+  rcases mgetNext_spec b0 i ks acc iter with ⟨out, e⟩ | ⟨k, rest, _, e⟩ <;> rw [e]
   · exact ⟨.idle, ⟨by simp [finishCall, hcl], hw, hsw, hcfg, hnow, hadm, hsh, hwk⟩, Or.inl rfl⟩
   · exact ⟨_, ⟨by simp [setClient, hcl], hw, hsw, hcfg, hnow, hadm, hsh, hwk⟩, Or.inr ⟨k, rest, rfl⟩⟩
 
@@ -569,7 +574,13 @@ inductive PcStep (b b' : BState) (i : Nat) : CPc → CPc → Prop where
   | startUpsert (k v w ttl rm) : PcStep b b' i (.start (.upsert k v w ttl rm)) (.upUpdate k v w ttl rm)
   | startGetRef (k) : PcStep b b' i (.start (.getRef k)) (.refStore k)
   | startMgetFin (ks iter out) : Ret b b' i out → PcStep b b' i (.start (.mget ks iter)) .idle
-  | startMgetGo (ks iter k rest) : ks = k :: rest → PcStep b b' i (.start (.mget ks iter)) (.mgetStore k rest [] iter)
+  | startMgetGo (ks iter) : PcStep b b' i (.start (.mget ks iter)) (.mgetFlag true ks [] iter)
+  /-- a load of the shutdown flag inside a multi-key read (the flag is clear: these are the actions outside `shutdown()`
+      of a cache that is running): the read returns (no key), or moves from the outer load to the load inside `get`, or
+      from that one to the lookup -/
+  | mgetFlagFin (outer ks acc iter out) : Ret b b' i out → PcStep b b' i (.mgetFlag outer ks acc iter) .idle
+  | mgetFlagOuter (k rest acc iter) : PcStep b b' i (.mgetFlag true (k :: rest) acc iter) (.mgetFlag false (k :: rest) acc iter)
+  | mgetFlagInner (k rest acc iter) : PcStep b b' i (.mgetFlag false (k :: rest) acc iter) (.mgetStore k rest acc iter)
   | putPresentHit (k v w ttl) : b.g.store.contains k = true →
       Ret b b' i (.ack b.g.acks.length (.rejected .keyAlreadyExists)) → b'.g.queue = b.g.queue →
       b'.g.acks = b.g.acks ++ [.rejected .keyAlreadyExists] → PcStep b b' i (.putPresent k v w ttl) .idle
@@ -590,12 +601,12 @@ inductive PcStep (b b' : BState) (i : Nat) : CPc → CPc → Prop where
   | mgetMissFin (k ks acc iter out) : (∀ e, b.g.store.get? k = some e → e.alive b.g.now = false) → Ret b b' i out →
       PcStep b b' i (.mgetStore k ks acc iter) .idle
   | mgetMissGo (k ks acc iter k' rest) : (∀ e, b.g.store.get? k = some e → e.alive b.g.now = false) → ks = k' :: rest →
-      PcStep b b' i (.mgetStore k ks acc iter) (.mgetStore k' rest (acc ++ [none]) iter)
+      PcStep b b' i (.mgetStore k ks acc iter) (.mgetFlag iter (k' :: rest) (acc ++ [none]) iter)
   | mgetHit (k ks acc iter e) : b.g.store.get? k = some e → e.alive b.g.now = true →
       PcStep b b' i (.mgetStore k ks acc iter) (.mgetPool k e.value ks acc iter)
   | mgetPoolFin (k v ks acc iter out) : Ret b b' i out → PcStep b b' i (.mgetPool k v ks acc iter) .idle
   | mgetPoolGo (k v ks acc iter k' rest) : ks = k' :: rest →
-      PcStep b b' i (.mgetPool k v ks acc iter) (.mgetStore k' rest (acc ++ [some v]) iter)
+      PcStep b b' i (.mgetPool k v ks acc iter) (.mgetFlag iter (k' :: rest) (acc ++ [some v]) iter)
   | weightRead : Ret b b' i (.weight b.g.adm.used) → PcStep b b' i .weightRead .idle
   | upAbsentPut (k v w ttl rm val weight) : b.g.store.get? k = none → v = some val →
       upsertW b.g.cfg v w ttl = some weight → 0 < weight → PcStep b b' i (.upUpdate k v w ttl rm) (.idNext k val weight ttl)
@@ -655,23 +666,36 @@ theorem cact_frame {b b' : BState} {i : Nat} (h : KAct b i b') (hsh : b.g.shutti
   case shutting r hpc hs => rw [hsh] at hs; cases hs
   case shut pc hpc hs => rw [hns pc hpc] at hs; cases hs
   case startMget ks iter hpc _ =>
-    rcases mgetNext_spec b i ks [] iter with ⟨out, e⟩ | ⟨k, rest, hk, _, e⟩ <;> rw [e]
-    · exact ⟨_, .idle, hpc, F rfl rfl rfl rfl rfl rfl rfl rfl, .none rfl rfl, rfl, .startMgetFin ks iter out rfl,
+    rcases mgetStart_spec b i ks iter with ⟨_, _, e⟩ | ⟨_, e⟩ <;> rw [e]
+    · exact ⟨_, .idle, hpc, F rfl rfl rfl rfl rfl rfl rfl rfl, .none rfl rfl, rfl, .startMgetFin ks iter _ rfl,
         fun h => absurd rfl h, fun _ => rfl⟩
-    · exact ⟨_, _, hpc, F rfl rfl rfl rfl rfl rfl rfl rfl, .none rfl rfl, rfl, .startMgetGo ks iter k rest hk,
+    · exact ⟨_, _, hpc, F rfl rfl rfl rfl rfl rfl rfl rfl, .none rfl rfl, rfl, .startMgetGo ks iter,
+        fun _ => rfl, fun _ => rfl⟩
+  case mgetFlag outer ks acc iter hpc =>
+    rcases mgetFlagAct_spec b i outer ks acc iter with ⟨_, e⟩ | ⟨k, rest, rfl, rfl, _, e⟩ | ⟨k, rest, _, _, hs', e⟩ |
+      ⟨k, rest, rfl, rfl, _, e⟩
+    · rw [e]
+      exact ⟨_, .idle, hpc, F rfl rfl rfl rfl rfl rfl rfl rfl, .none rfl rfl, rfl, .mgetFlagFin outer ks acc iter _ rfl,
+        fun h => absurd rfl h, fun _ => rfl⟩
+    · rw [e]
+      exact ⟨_, _, hpc, F rfl rfl rfl rfl rfl rfl rfl rfl, .none rfl rfl, rfl, .mgetFlagOuter k rest acc iter,
+        fun _ => rfl, fun _ => rfl⟩
+    · rw [hsh] at hs'; cases hs'
+    · rw [e]
+      exact ⟨_, _, hpc, F rfl rfl rfl rfl rfl rfl rfl rfl, .none rfl rfl, rfl, .mgetFlagInner k rest acc iter,
         fun _ => rfl, fun _ => rfl⟩
   case mgetMiss k ks acc iter st hpc hm =>
     rcases mgetNext_spec { b with g := { b.g with stats := st } } i ks (acc ++ [none]) iter with
-      ⟨out, e⟩ | ⟨k', rest, hk, _, e⟩ <;> rw [e]
+      ⟨out, e⟩ | ⟨k', rest, hk, e⟩ <;> rw [e]
     · exact ⟨_, .idle, hpc, F rfl rfl rfl rfl rfl rfl rfl rfl, .none rfl rfl, rfl,
-        .mgetMissFin k ks acc iter out hm rfl, fun h => absurd rfl h, fun _ => rfl⟩
+        .mgetMissFin k ks acc iter _ hm rfl, fun h => absurd rfl h, fun _ => rfl⟩
     · exact ⟨_, _, hpc, F rfl rfl rfl rfl rfl rfl rfl rfl, .none rfl rfl, rfl,
         .mgetMissGo k ks acc iter k' rest hm hk, fun _ => rfl, fun _ => rfl⟩
   case mgetPool k v ks acc iter g1 hpc hg =>
     obtain ⟨h1, h2, h3, h4, h5, h6, h7, h8, _, _⟩ := pool_fields hg
-    rcases mgetNext_spec { b with g := g1 } i ks (acc ++ [some v]) iter with ⟨out, e⟩ | ⟨k', rest, hk, _, e⟩ <;> rw [e]
+    rcases mgetNext_spec { b with g := g1 } i ks (acc ++ [some v]) iter with ⟨out, e⟩ | ⟨k', rest, hk, e⟩ <;> rw [e]
     · exact ⟨_, .idle, hpc, F rfl rfl rfl h1 h2 h3 h4 h5, .none h6 h7, rfl,
-        .mgetPoolFin k v ks acc iter out rfl, fun h => absurd rfl h, fun _ => h8⟩
+        .mgetPoolFin k v ks acc iter _ rfl, fun h => absurd rfl h, fun _ => h8⟩
     · exact ⟨_, _, hpc, F rfl rfl rfl h1 h2 h3 h4 h5, .none h6 h7, rfl,
         .mgetPoolGo k v ks acc iter k' rest hk, fun _ => rfl, fun _ => h8⟩
   case upWNothing id uw old new hpc hty =>
